@@ -54,6 +54,8 @@ def cases(draw):
         "zeros": draw(st.sampled_from([0, 0, 0, 0, 20, 24])),
         # the collected store's own algorithm (legacy stores are named md5-dos2unix)
         "algo": draw(st.sampled_from(["md5", "md5", "md5-dos2unix"])),
+        # legacy `<oid>.dir.unpacked` leftovers next to directory objects (gc cleans them up for compatibility)
+        "unpacked": draw(st.sampled_from([0, 0, 1, 3])),
         # name carried by the foreign-algorithm used ids
         "foreign": draw(st.sampled_from(["sha256", "md5-family", "md5-family"])),
     }
@@ -106,6 +108,14 @@ def run_case(case, ctx):
                 os.chmod(p, 0o644)
                 os.unlink(p)
 
+        n_unpacked = 0
+        for k, doid in enumerate(sorted(set(dir_ids))):
+            if k < case.get("unpacked", 0):
+                p_ = odb.oid_to_path(doid)
+                if os.path.exists(p_):
+                    os.makedirs(p_ + ".unpacked", exist_ok=True)
+                    gen.write_file(os.path.join(p_ + ".unpacked", "legacy-file"), b"old unpacked data")
+                    n_unpacked += 1
         problems, before = ref.audit_local_store(store, algo)
         if problems:
             return Result([Viol("setup-audit", f"store not well-formed after setup: {problems[:2]}")])
@@ -205,6 +215,8 @@ def run_case(case, ctx):
             classes.append("read-only")
         if case.get("zeros"):
             classes.append("per-prefix-traversal(>=16 '00' ids)")
+        if n_unpacked:
+            classes.append("legacy-unpacked-leftover")
         if cache is not None:
             classes.append("separate-cache_odb")
         if expected_removed and keep & set(before):
